@@ -145,6 +145,15 @@ func c10Keys(c *Ctx, n int) []procKey {
 		}
 	}
 	add(`{ print $ }`, []string{"$.c", "$"}, objDocs[2], false)
+	// a run that fails on a malformed regex, right after a run that compiled a good one, twice in a row; selectors
+	// with variables of their own (every evaluation of a selector starts from nothing)
+	add(`BEGIN { print "banana" ~ /an/, "x" ~ "^x$" }`, nil, `["banana"]`, false)
+	add(`{ if ($ ~ "a(") { print "hit", $ } print "after" }`, nil, `["banana", "a("]`, false)
+	add(`{ print "m", $ ~ $ }`, nil, `["an", "a(", "an"]`, false)
+	for _, sel := range []string{"seen", "n++", "cnt = cnt + 1", "[seen, $]", "acc = acc + $.length()", "tmp = $"} {
+		add(`{ print "root", $ }`, []string{sel}, `[1, 2] [3]`, false)
+		add(`{ $.n++; print "n =", $.n } END { print "end" }`, []string{sel}, `{"a": 1}`, false)
+	}
 	// both zeros, formatted in whatever order the history brings them
 	for _, p := range []string{`BEGIN { x = 0; print x, [x], {a: x}; o = {}; o[x] = 1; print o }`, `BEGIN { y = 0 * (0 - 1); print y, [y], {a: y}; o = {}; o[y] = 1; print o }`,
 		`{ z = $.n * (0 - 1); print z, [z] }`, `BEGIN { printf("%v %s %f\n", 0, 0, 0); printf("%v %s %f\n", 0 * (0 - 1), 0 * (0 - 1), 0 * (0 - 1)) }`} {
@@ -315,6 +324,10 @@ func checkC10(c *Ctx) {
 			}
 			order = append(order, perm...)
 		}
+		// every key twice in a row: nothing that happened between two runs of a key can have healed a one-entry memo
+		for _, i := range rng.Perm(len(keys)) {
+			order = append(order, i, i)
+		}
 		if p%2 == 1 {
 			var pre []int
 			for i, k := range keys {
@@ -372,9 +385,18 @@ func checkC10(c *Ctx) {
 		key string
 		obs string
 	}
+	// fresh processes whose output is long enough to outlast any timer or buffer of the command line
+	longKeys := []procKey{
+		{id: "long1", prog: "BEGIN {\n  for (i = 0; i < 400000; i++) {\n    print i\n  }\n}\n", input: "[]"},
+		{id: "long2", prog: "{\n  for (i = 0; i < 200000; i++) {\n    printf(\"%s:%v \", $, i)\n  }\n  print \"\"\n}\n", input: "[1, 2]"},
+	}
+	nbin += len(longKeys)
 	binRuns := make([][]binRun, nbin)
 	parallelDo(nbin, 16, func(b int) {
 		k := keys[b%len(keys)]
+		if b >= nbin-len(longKeys) {
+			k = longKeys[b-(nbin-len(longKeys))]
+		}
 		if dropped[k.id] || strings.Contains(k.prog, "while (") {
 			return
 		}
